@@ -482,6 +482,41 @@ theorem scan_concat (s1 s2 : List Char) (w : Char) (hw : isWs w = true) (d : Nat
   have := scan_more _ _ _ _ _ _ _ hmain ((s1 ++ w :: s2).length + 1) [] (by omega)
   simpa using this
 
+/-- leading white space is skipped -/
+theorem scan_skip_ws : ∀ (W : List Char), W.all isWs = true → ∀ (f : Nat) (cs : List Char) (d : Nat) (acc : List Tok),
+    scan (f + W.length) (W ++ cs) d false false acc = scan f cs d false false acc
+  | [], _, f, cs, d, acc => rfl
+  | w :: W, hW, f, cs, d, acc => by
+      simp only [List.all_cons, Bool.and_eq_true] at hW
+      rw [show f + (w :: W).length = (f + W.length) + 1 by simp only [List.length_cons]; omega, List.cons_append, scan_succ']
+      simp only [hW.1, if_true]
+      exact scan_skip_ws W hW.2 f cs d acc
+
+/-- **the amount and kind of white space between two texts does not matter**: any non-empty run of white-space characters between
+    them gives the tokens of the first followed by the tokens of the second -/
+theorem scan_ws_irrelevant (s1 s2 W : List Char) (hne : W ≠ []) (hW : W.all isWs = true) (d : Nat) (ts1 ts2 : List Tok)
+    (h1 : scan (s1.length + 1) s1 d false false [] = .ok ts1)
+    (h2 : scan (s2.length + 1) s2 (tokDepth ts1 d) false false [] = .ok ts2) :
+    scan ((s1 ++ W ++ s2).length + 1) (s1 ++ W ++ s2) d false false [] = .ok (ts1 ++ ts2) := by
+  cases W with
+  | nil => exact absurd rfl hne
+  | cons w W' =>
+    simp only [List.all_cons, Bool.and_eq_true] at hW
+    have h2' : scan ((W' ++ s2).length + 1) (W' ++ s2) (tokDepth ts1 d) false false [] = .ok ts2 := by
+      rw [show (W' ++ s2).length + 1 = (s2.length + 1) + W'.length by simp only [List.length_append]; omega,
+        scan_skip_ws W' hW.2]
+      exact h2
+    have := scan_concat s1 (W' ++ s2) w hW.1 d ts1 ts2 h1 h2'
+    simpa [List.append_assoc] using this
+
+/-- … so two layouts of the same two texts are scanned alike -/
+theorem layout_irrelevant (s1 s2 W W' : List Char) (hne : W ≠ []) (hne' : W' ≠ []) (hW : W.all isWs = true) (hW' : W'.all isWs = true)
+    (d : Nat) (ts1 ts2 : List Tok) (h1 : scan (s1.length + 1) s1 d false false [] = .ok ts1)
+    (h2 : scan (s2.length + 1) s2 (tokDepth ts1 d) false false [] = .ok ts2) :
+    scan ((s1 ++ W ++ s2).length + 1) (s1 ++ W ++ s2) d false false [] =
+    scan ((s1 ++ W' ++ s2).length + 1) (s1 ++ W' ++ s2) d false false [] := by
+  rw [scan_ws_irrelevant s1 s2 W hne hW d ts1 ts2 h1 h2, scan_ws_irrelevant s1 s2 W' hne' hW' d ts1 ts2 h1 h2]
+
 /-- the texts of a file, one per line -/
 def joinLines : List (List Char) → List Char
   | [] => []
